@@ -44,7 +44,7 @@ def run(ck):
     # ---- C->S
     traces = cellcommon.drive_shards(ck, "C02")
     def val(tp):
-        return ck.validate_events("Cells_Trace", "trace/Cells_Trace.cfg", tp, timeout=3000, name="trace_" + os.path.basename(tp)[6:8], heap_gb=6, workers=1)
+        return ck.validate_events("Cells_Trace", "trace/Cells_Trace.cfg", tp, timeout=3000, name="trace_" + os.path.basename(tp)[6:8], heap_gb=3, workers=1)
     roots = set()
     ncells = 0
     nwf = 0
